@@ -24,8 +24,8 @@ def obligations(tier):
            [F['dl']], module=H, func='k2_bad_download', timeout=600),
         Ob('K3', 'S', 'any proper prefix of the content as cache entry (interrupted write) is transparent', 'symbolic cut position over 72 bytes',
            [F['dl']], module=H, func='k3_prefix', timeout=600),
-        Ob('K4', 'E', 'two or three clients storing the same snapshot into a shared cache directory under every interleaving of the statements of _store_cached: no error, entry intact, nothing left behind',
-           '2 x 3^6 schedule prefixes', ['replicat.repository:Repository._store_cached'], module=H, func='k4_store_race', timeout=600),
+        Ob('K4', 'E', 'two or three clients storing the same snapshot into a shared cache directory under every interleaving of the statements of _store_cached, while another client deletes its own entry of the same prefix directory (real _delete_cached) after 0..6 steps or never: no error, entry intact, nothing left behind',
+           '2 x 3^6 schedule prefixes x 8 delete positions = 11664', ['replicat.repository:Repository._store_cached'], module=H, func='k4_store_race', timeout=600, shards=4),
         Ob('E.cache', 'E', 'cached vs cache-less client: same outputs of list_snapshots/list_files/restore, and same report and same objects in the store after snapshot, delete, clean, list/delete/download-objects and an upload-objects --skip-existing mirror into another (empty) repository with the same cache directory, for A, B(shared), C(independent)',
            '15x15 command pairs x shared/separate cache x 7 corruptions x 3 target files = 9450 vectors' if tier == 'thorough' else '15x15x2x7x3 = 9450 vectors',
            [F['dl'], F['ls'], F['del']], module=H, func='e_cache', timeout=1800, shards=16),
